@@ -9,4 +9,4 @@ macro_rules! files {
         }
     };
 }
-files!(c17, ans, kk, bits);
+files!(c17, ans, kk, bits, models, rangek);
